@@ -157,3 +157,32 @@ func bstr(s string) string { return "\"" + s + "\"" }
 func drawTTY(s Src) int {
 	return Pick(s, "tty", []int{0, 0, 0, 7, 4, 6, 1})
 }
+
+// drawSched draws the part of a schedule that only matters for a tree that starts goroutines
+// or timers (verifsimrt/tasks.go): the seed and slice of the task scheduler and, with timeToo,
+// how simulated time passes while the program computes and while it waits for input.
+func drawSched(s Src, c sim.Config, timeToo bool) sim.Config {
+	c.SchedSeed = int64(s.Int("schedseed", 0, 1<<30))
+	c.SchedQuantum = Pick(s, "quantum", []int{1, 3, 20, 200, 2000})
+	if timeToo {
+		if c.ClockTickUs == 0 {
+			c.ClockTickUs = Pick(s, "tickus", []int64{0, 0, 10, 1000, 20000})
+		}
+		c.ReadDelayMs = Pick(s, "readdelay", []int64{0, 0, 0, 20, 250, 3000, 7000})
+	}
+	return c
+}
+
+// applySched gives every run of a case the same drawn concurrency schedule.
+func applySched(s Src, cs *Case, timeToo bool) *Case {
+	d := drawSched(s, sim.Config{}, timeToo)
+	for i := range cs.Runs {
+		c := cs.Runs[i].Cfg
+		c.SchedSeed, c.SchedQuantum, c.ReadDelayMs = d.SchedSeed, d.SchedQuantum, d.ReadDelayMs
+		if c.ClockTickUs == 0 {
+			c.ClockTickUs = d.ClockTickUs
+		}
+		cs.Runs[i].Cfg = c
+	}
+	return cs
+}
